@@ -3,7 +3,7 @@
   a started (elapsed) notice or has been unbonded by the removal.
 -/
 import DymVerif.Lemmas.CoreRolesMono
-namespace DymVerif.Core
+namespace DymVerif.Core.Roles
 
 def Unbonded (s : St) (a : Addr) : Prop := ∃ q, getSeq s a = some q ∧ q.bonded = false
 
@@ -286,4 +286,4 @@ theorem apply_removed_marked {s s' : St} {o : Op} {id : Nat} {r : Rollapp} {a : 
   | begin_ dt => simp only [apply] at e; injection e with e; subst e; exact contra (beginBlock_psame s dt)
   | end_ f => simp only [apply] at e; injection e with e; subst e; exact contra (endBlock_frame h.core.uniq).psame
 
-end DymVerif.Core
+end DymVerif.Core.Roles
